@@ -94,7 +94,16 @@ func (m *map16) String() string {
 	if items == 0 {
 		return "(empty)"
 	}
-	return sb.String()
+	return clip(sb.String())
+}
+
+// clip shortens a rendered map for messages; the rapid fail file keeps the
+// complete case.
+func clip(s string) string {
+	if len(s) > 1500 {
+		return s[:1500] + fmt.Sprintf("… (%d more characters; complete case in the replay file)", len(s)-1500)
+	}
+	return s
 }
 
 var startPositions = []int{0, 1, 0x20, 0x41, 0xFF, 0x100, 0x7FFF, 0x8000, 0xFF00, 0xFFE0, 0xFFF8, 0xFFFD}
@@ -124,7 +133,7 @@ func genMap16(t *rapid.T, maxCode int, allowBig bool) *map16 {
 		if bigMapsOften {
 			p = 12
 		}
-		if rapid.IntRange(0, p-1).Draw(t, "big") == 0 {
+		if rapid.IntRange(0, p-1).Draw(t, "big") == p-1 { // rare values are the large ones: shrinking leads away
 			genBigMap(t, m)
 			return m
 		}
@@ -178,7 +187,7 @@ func genMap16(t *rapid.T, maxCode int, allowBig bool) *map16 {
 		switch kind := rapid.IntRange(0, 11).Draw(t, "blockKind"); {
 		case kind <= 3: // constant-delta run
 			l := rapid.IntRange(1, 10).Draw(t, "runLen")
-			if maxCode >= 65535 && rapid.IntRange(0, 14).Draw(t, "long") == 0 {
+			if maxCode >= 65535 && rapid.IntRange(0, 14).Draw(t, "long") == 14 {
 				l = rapid.IntRange(1000, 5000).Draw(t, "runLen")
 				m.label("map:long-run")
 			}
@@ -377,7 +386,7 @@ func (m *map32) String() string {
 		}
 		i = j + 1
 	}
-	return sb.String()
+	return clip(sb.String())
 }
 
 var startPositions32 = []uint32{0, 0x20, 0xFFF0, 0xFFFE, 0xFFFF, 0x10000, 0x1F600, 0x2FFFE, 0xE0000, 0x10FFF0, 0x10FFFF}
@@ -460,7 +469,7 @@ func genMap32(t *rapid.T, bmpOnly bool) *map32 {
 		switch kind := rapid.IntRange(0, 9).Draw(t, "blockKind"); {
 		case kind <= 4:
 			l := rapid.IntRange(1, 12).Draw(t, "runLen")
-			if rapid.IntRange(0, 14).Draw(t, "long") == 0 {
+			if rapid.IntRange(0, 14).Draw(t, "long") == 14 {
 				l = rapid.IntRange(200, 3000).Draw(t, "runLen")
 			}
 			g0 := genGid(t, prevLast)
